@@ -273,13 +273,30 @@ def gen_points(rng, n, rank, bnds=None, M=None, span=3):
     g = rng.choice([0, 1, 2, 2, 3]); k = rng.choice([0, 1, 2, 2, 3])
     return [[pt() for _ in range(k)] for _ in range(g)]
 
+def points_dtype(pts, salt=0):
+    """a numpy integer dtype that can hold every coordinate exactly (the property is about integer points
+    whatever their storage type); deterministic in the points so that replays use the same dtype"""
+    def flat(x):
+        return [v for y in x for v in flat(y)] if isinstance(x, list) else [x]
+    vals = flat(pts) or [0]
+    lo, hi = min(vals), max(vals)
+    cands = [np.int64]
+    if lo >= -2 ** 31 and hi < 2 ** 31: cands.append(np.int32)
+    if lo >= -2 ** 15 and hi < 2 ** 15: cands.append(np.int16)
+    if lo >= -128 and hi < 128: cands.append(np.int8)
+    if lo >= 0:
+        if hi < 2 ** 32: cands.append(np.uint32)
+        if hi < 2 ** 16: cands.append(np.uint16)
+        if hi < 256: cands.append(np.uint8)
+    return cands[(sum(vals) + len(vals) + salt) % len(cands)]
+
 def np_points(pts, n, rank):
     a = np.array(pts, dtype=np.int64)
     if rank == 2:
         a = a.reshape(len(pts), n)
     elif rank == 3:
         a = a.reshape(len(pts), len(pts[0]) if pts else 0, n)
-    return a
+    return a.astype(points_dtype(pts))
 
 # ----------------------------------------------------------------------------- fixed systems
 # Always run first (C11 / C12): the Coq non-vacuity examples, witnesses of the guards, past finds.
